@@ -1078,7 +1078,32 @@ func genAPIMode(r *rng, full bool) string {
 	return "(" + strings.Join(parts, " ") + ")"
 }
 
+// family `specdiff`: the implementation model (Driver.step) against the
+// reference model (SpecDb.s_step) on histories without sessions, bulk writes
+// and maintenance calls — evaluated entirely on the Coq side; the expected
+// observable is the constant "OK".  It tests the refinement statement of C01.
+func genSpecdiff(r *rng) string {
+	g := &apiGen{r: r}
+	n := 5 + r.intn(30)
+	parts := []string{"specdiff"}
+	for len(parts) < n+1 {
+		c := g.call()
+		g.openSess = 0
+		if strings.HasPrefix(c, "(bulk") || strings.HasPrefix(c, "(trim") || strings.HasPrefix(c, "(start") ||
+			strings.HasPrefix(c, "(commit") || strings.HasPrefix(c, "(abort") || strings.HasPrefix(c, "(end") {
+			continue
+		}
+		parts = append(parts, c)
+	}
+	return "(" + strings.Join(parts, " ") + ")"
+}
+
 func init() {
+	register(&family{
+		name: "specdiff",
+		gen:  genSpecdiff,
+		run:  func(c *sx) string { return "OK" },
+	})
 	register(&family{
 		name: "api",
 		gen:  genAPI,
